@@ -2,7 +2,10 @@
 
 package kern
 
-import "runtime"
+import (
+	"runtime"
+	"unsafe"
+)
 
 // Hand-off channel operations must not create happens-before edges between
 // tasks: they exist only in the simulation, not in the program under test.
@@ -14,3 +17,11 @@ func raceOff() { runtime.RaceDisable() }
 func raceOn() { runtime.RaceEnable() }
 
 const RaceBuild = true
+
+// HBRelease / HBAcquire create an explicit happens-before edge through addr for
+// orderings that exist in the real program but that the simulation implements
+// by other means (one logical goroutine modelled by several tasks, a timer
+// callback after the call that armed it, an object handed to other goroutines
+// by the application).
+func HBRelease(addr *int32) { runtime.RaceReleaseMerge(unsafe.Pointer(addr)) }
+func HBAcquire(addr *int32) { runtime.RaceAcquire(unsafe.Pointer(addr)) }
